@@ -228,9 +228,20 @@ def series_tables(chk, repo):
     mc = repo.by_path('TidalPy/RadialSolver/starting/common.pyx')
     fz = need_func(mc, 'cf_z_calc'); fp = need_func(mc, 'cf_takeuchi_phi_psi')
     l = X.atom('l', 'pos'); u = X.atom('u')
+    # the function switches between the closed form (spherical Bessel functions) and a power series: the switch is the top-level `if` one of whose arms calls the
+    # Bessel functions; the arms are recognised by what they contain, not by how the test is written
+    switches = [st for st in fz.body if isinstance(st, ast.If)]
+    def has_bessel(body): return any(isinstance(n_, ast.Call) and 'spherical_jn' in ast.unparse(n_.func) for s_ in body for n_ in ast.walk(s_))
+    switches = [st for st in switches if has_bessel(st.body) != has_bessel(st.orelse)]
+    if len(switches) != 1:
+        raise AnalysisError('cf_z_calc: the switch between the Bessel form and the series was not found')
+    switch = switches[0]; exact_is_body = has_bessel(switch.body)
+    captured = {}
 
     def if_test(itp, st, fr):
-        if 'cf_cabs' in ast.unparse(st.test): return False         # Taylor branch
+        if st is switch:
+            captured.setdefault('cond', itp.eval(st.test, fr))
+            return not exact_is_body          # Taylor branch
         return None
     it = Interp(repo, hooks={'if_test': if_test})
     z = it.call(mc, fz, [u, l])
@@ -276,7 +287,7 @@ def series_tables(chk, repo):
             cur = X.diff(cur, 'u')
     # exact branch of z: x * j_(l+1)(x) / j_l(x) with x = sqrt(x^2)
     def if_test2(itp, st, fr):
-        if 'cf_cabs' in ast.unparse(st.test): return True
+        if st is switch: return exact_is_body
         return None
 
     def ch(itp, f, args, kw, e, frm):
@@ -289,6 +300,26 @@ def series_tables(chk, repo):
     ref = x * sph_bessel('spherical_jn', 3, x) / sph_bessel('spherical_jn', 2, x)
     dd = X.Decider(seed=chk.seed + 29, k=2)
     chk.ob('R04.2', 'cf_z_calc exact branch == x j_(l+1)(x) / j_l(x), x = sqrt(x^2)', dd.equal(ze, ref), f'extracted {X.show(ze)[:80]}', mc.where(fz), method='GF(p^2) PIT with uninterpreted Bessel functions')
+    # where the switch lies: the five-term series is only good for small |x^2|; for every x^2 of modulus >= 1 -- negative real (solids: k^2 < 0), imaginary, complex -- the
+    # closed form must be used, and for very small ones the series (the closed form is 0/0 at x = 0)
+    captured.clear()
+    uc = X.atom('u_complex', 'complex')
+    Interp(repo, hooks={'if_test': if_test}).call(mc, fz, [uc, 2])
+    cond = captured.get('cond')
+    if not isinstance(cond, X.Node):
+        raise AnalysisError('cf_z_calc: the condition of the switch could not be extracted')
+    import cmath
+    bad = []
+    for val in (-1.0, -10.0, -1.0e4, 1.0, 25.0, 3j, -7j, -2.0 + 2.0j, 30.0 - 40.0j):
+        t = X.float_eval(cond, {'u_complex': val})
+        takes_exact = (abs(t) > 0.5) == exact_is_body
+        if not takes_exact: bad.append(f'x^2 = {val}: the series is used')
+    for val in (0.0, 1e-12, -1e-9, 1e-10j):
+        t = X.float_eval(cond, {'u_complex': val})
+        takes_exact = (abs(t) > 0.5) == exact_is_body
+        if takes_exact: bad.append(f'x^2 = {val}: the closed form (0/0 near x = 0) is used')
+    chk.ob('R04.2', 'cf_z_calc uses the closed form for every x^2 of modulus >= 1 (negative real, imaginary, complex) and the series for |x^2| <= 1e-9', not bad, '; '.join(bad[:4]), mc.where(fz),
+           key='R04.2|z|switch', method='float evaluation of the extracted switch condition at sample arguments')
 
 
 # ------------------------------------------------------------------------------------------------ driver
